@@ -31,6 +31,8 @@ type pipeline struct {
 	stages  []*pstage
 	sources []string
 	cyclic  bool
+	sink    string // a stage that only consumes the last stage's file: inputs, a command, no outputs
+	sinkIn  string
 }
 
 // genDAG builds a random DAG: stage i may consume sources and outputs of stages < i.
@@ -119,6 +121,11 @@ func genDAG(r *rng, n int, s *summary) *pipeline {
 		}
 		st.ins = dedup(st.ins)
 		pl.stages = append(pl.stages, st)
+	}
+	if n >= 2 && r.chance(1, 2) {
+		// a sink: only consumes what the last stage writes (a report, an upload)
+		pl.sink = "zz_sink.yaml"
+		pl.sinkIn = pl.stages[n-1].dst
 	}
 	return pl
 }
@@ -253,6 +260,21 @@ func onePipe(o *opts, r *rng, s *summary, i int, pl *pipeline, distinct map[stri
 		p.writeStage(st.file, st.rec(""))
 		sems = append(sems, st.sem())
 		files = append(files, st.file)
+	}
+	if pl.sink != "" {
+		// (its command reads the input and leaves the project alone, apart from the execution log)
+		p.writeStage(pl.sink, &StageRec{Cmd: "cat '" + pl.sinkIn + "' > /dev/null && echo " + pl.sink + " >> .runlog", In: []Art{{Path: pl.sinkIn}}})
+		files = append(files, pl.sink)
+		s.count("stage:sink-without-outputs")
+	}
+	// a remote, so that push / fetch do their traversal (and, with the stand-in rclone, their work)
+	if !pl.cyclic {
+		cfg := filepath.Join(p.Root, ".dud", "config.yaml")
+		f, err := os.OpenFile(cfg, os.O_APPEND|os.O_WRONLY, 0o644)
+		must(err)
+		fmt.Fprintf(f, "remote: %s\n", filepath.Join(p.Base, "remote"))
+		f.Close()
+		must(os.MkdirAll(filepath.Join(p.Base, "remote"), 0o755))
 	}
 	sort.Strings(files)
 	var ts []*Transition
@@ -618,6 +640,20 @@ func onePipe(o *opts, r *rng, s *summary, i int, pl *pipeline, distinct map[stri
 			// right after a successful commit everything in its scope is reported up to date
 			t, w = p.do(Cmd{Kind: "status", Targets: []string{target.file}}, sems, want(2, 6, 15, 13), nil, nil)
 			add(t, "status of the last stage right after its commit")
+		}
+		if t.OK {
+			// push and fetch of that target (of the sink behind it, if there is one): the stages
+			// announced are exactly the target and everything upstream of it, each once, owners first;
+			// with --single-stage exactly the target
+			tgt := target.file
+			if pl.sink != "" {
+				tgt = pl.sink
+			}
+			for _, c := range []Cmd{{Kind: "push", Targets: []string{tgt}}, {Kind: "fetch", Targets: []string{tgt}}, {Kind: []string{"push", "fetch"}[r.intn(2)], Targets: []string{tgt}, Single: true}} {
+				tp, _ := p.do(c, sems, want(11, 28, 8, 9, 13), nil, nil)
+				add(tp, c.Kind+" of the last stage after its commit")
+				s.count("transfer:" + c.Kind)
+			}
 		}
 		if t.OK {
 			for _, st := range pl.stages {
